@@ -23,6 +23,10 @@ inductive HOp (P D : Type) where
   | readSf
   | readPdf
   | compute
+  /-- a `set_prms` call that raises (one of the values cannot be cast to the model's dimensions).
+  `p'` = the parameters the object would hold if the values converted before the failure had already
+  been stored (the first parameter new, the second old) -/
+  | setPrmsFailed (p' : P)
 
 variable {P T D R : Type}
 
@@ -51,6 +55,7 @@ def step (tbl : P → T) (pdfOf : T → T) (F : D → T → T → R) (resetSf re
     let (s1, sf) := ensureSf tbl s
     let (s2, pdf) := ensurePdf tbl pdfOf s1
     { s2 with res := some (F s2.driver sf pdf) }
+  | .setPrmsFailed _ => s      -- a refused call changes nothing (see `stepE` for the alternative)
 
 /-- a freshly built object with the same inputs -/
 def fresh (tbl : P → T) (pdfOf : T → T) (F : D → T → T → R) (p : P) (d : D) : R :=
@@ -83,7 +88,10 @@ def ensurePdfE (tbl : P → Option T) (pdfOf : T → T) (discard : Bool) (junk :
     | (s1, none) => (if discard then s1 else { s1 with pdf := some junk }, none)
 
 def stepE (tbl : P → Option T) (pdfOf : T → T) (F : D → T → T → R) (resetSf resetPdf discard : Bool)
-    (junk : T) (s : HState P T D R) : HOp P D → HState P T D R × Bool
+    (junk : T) (atomic : Bool) (s : HState P T D R) : HOp P D → HState P T D R × Bool
+  -- `atomic` (`Gen.setPrmsAtomic`): every value is converted before any is stored; otherwise the
+  -- failed call leaves the partly updated parameters behind, with the tables of the old ones (D32)
+  | .setPrmsFailed p' => (if atomic then s else { s with prm := p' }, false)
   | .setPrms p => ({ s with prm := p, sf := if resetSf then none else s.sf,
                              pdf := if resetPdf then none else s.pdf }, true)
   | .setDriver d => ({ s with driver := d }, true)
